@@ -151,7 +151,7 @@ Definition seq_class (v r : verdict) : string :=
 Fixpoint seq_verdict (o : oracle_t) (calls obs : list val) : verdict :=
   match calls, obs with
   | [], [] => mkv true true "-"%string (VL [])
-  | VL [VS fn; VL a] :: cr, ob :: obr =>
+  | VL (VS fn :: VL a :: _) :: cr, ob :: obr =>      (* a third component (the invoker's mode of a History step) is not the model's business *)
       let v := run_table single_table o fn a ob in
       let r := seq_verdict o cr obr in
       mkv (v_corr v && v_corr r) (v_prop v && v_prop r) (seq_class v r)
@@ -164,4 +164,28 @@ Definition d_seq (o : oracle_t) (args : list val) (obs : val) : verdict :=
   | _, _ => bad_case
   end.
 
-Definition table_C03 : table := single_table ++ [("Sequence"%string, d_seq)].
+(* History: a sequence of calls performed back to back by one invoker, each step with a mode that says what the *caller* does around the
+   call (overwrite its own argument slice after the call, scribble over the returned slice after reading it). The observed value lists
+   every step's result twice: as read immediately and as read again after the whole sequence. The model has no state (ChangeZoom.history_irrelevant),
+   so both readings of every step are judged exactly like a standalone call with the step's own arguments. *)
+Definition combine (v r : verdict) : verdict :=
+  mkv (v_corr v && v_corr r) (v_prop v && v_prop r) (seq_class v r) (VL [v_model v; v_model r]).
+Definition d_hist (o : oracle_t) (args : list val) (obs : val) : verdict :=
+  match args, obs with
+  | [VL calls], VL results =>
+      let n := length calls in
+      if Nat.eqb (length results) (2 * n)
+      then combine (seq_verdict o calls (firstn n results)) (seq_verdict o calls (skipn n results))
+      else bad_case
+  | _, _ => bad_case
+  end.
+
+Definition table_C03 : table := single_table ++ [("Sequence"%string, d_seq); ("History"%string, d_hist)].
+
+(* every step of a sequence is judged by the single-call entry of its function on its own arguments and its own observed value *)
+Lemma seq_verdict_cons o fn a extra cr ob obr :
+  let v := run_table single_table o fn a ob in
+  let r := seq_verdict o cr obr in
+  v_corr (seq_verdict o (VL (VS fn :: VL a :: extra) :: cr) (ob :: obr)) = v_corr v && v_corr r /\
+  v_prop (seq_verdict o (VL (VS fn :: VL a :: extra) :: cr) (ob :: obr)) = v_prop v && v_prop r.
+Proof. cbn. split; reflexivity. Qed.
